@@ -36,10 +36,11 @@ def strip_carets(cmd: bytes) -> bytes:
         elif character == ord("^") and not in_string:
             # Skip and treat the next character literally
             i += 1
-            if cmd[i] == ord("\r"):
+            if cmd[i : i + 2] == b"\r\n":
                 i += 2  # skip \r\n
         # Add the character (or next character if ^)
-        out.append(cmd[i])
+        if i < len(cmd):
+            out.append(cmd[i])
         i += 1
     if i < len(cmd) and (cmd[i] != ord("^") or in_string):
         out.append(cmd[i])
